@@ -66,6 +66,7 @@ func main() {
 	noEvidence := flag.Bool("no-evidence", false, "do not write evidence / violation files (self-test)")
 	onlyRule := flag.String("rule", "", "run only this rule (self-test / explain)")
 	list := flag.Bool("list", false, "list properties and rules")
+	verbose := flag.Bool("v", false, "print every obligation")
 	flag.Parse()
 
 	if *list {
@@ -184,6 +185,9 @@ func main() {
 	perRuleSample := map[string]int{}
 	exit := 0
 	for _, o := range c.Obls {
+		if *verbose {
+			fmt.Printf("  [%s] %s  %s  -- %s\n", o.Status, o.Key(), o.Pos, o.Msg)
+		}
 		total++
 		distinct[o.Key()] = true
 		switch o.Status {
@@ -257,6 +261,12 @@ func main() {
 	}
 
 	if !*noEvidence {
+		if p.Trusted == nil {
+			p.Trusted = []string{"go/types + go/ssa construction (x/tools v0.50.0)", "the reachability / provenance engines in checker/internal/core", "SQL engine and go-ethereum semantics"}
+		}
+		if p.Assumptions == nil {
+			p.Assumptions = []string{}
+		}
 		ev := map[string]any{
 			"property_id": p.ID,
 			"tier":        *tier,
